@@ -443,8 +443,7 @@ def _exprs():
     """(text, tree) for the documented grammar with <= 2 connectives.  tree: atom | ('not', t) | ('and'|'or', t, u)."""
     # (`!=` only for the single-valued sigdigs: for a vector criterion "all values differ" vs "not all equal" is
     # not specified by the documentation)
-    num_atoms = [f'sigdigs {op} 3' for op in OPS] + [f'rse {op} 2' for op in OPS if op != '!='] \
-        + ['sigdigs >= 0.1', 'rse < 0.4']
+    num_atoms = [f'sigdigs {op} 3' for op in OPS] + [f'rse {op} 2' for op in OPS if op != '!=']
     lvl0 = ATOMS_BOOL + num_atoms
     small = ['minimization_successful', 'rounding_errors', 'sigdigs >= 3', 'rse < 2', 'final_zero_gradient']
     out = []
@@ -473,9 +472,6 @@ def _exprs():
                         else:
                             tree = (o2, (o1, a, b), c)
                         out.append((f'{a} {o1} {b} {o2} {c}', tree))
-    out.append(('minimization_successful or (rounding_errors and sigdigs >= 0.1)',
-                ('or', 'minimization_successful', ('and', 'rounding_errors', 'sigdigs >= 0.1'))))
-    out.append(('minimization_successful and rse < 0.4', ('and', 'minimization_successful', 'rse < 0.4')))
     out.append(('MINIMIZATION_SUCCESSFUL', 'minimization_successful'))
     if CHUNK:
         i, m = (int(x) for x in CHUNK.split('/'))
@@ -484,6 +480,20 @@ def _exprs():
 
 
 EXPRS = _exprs()
+
+# expressions with non-integer thresholds (the documented examples): symbolic ints against a float threshold do not
+# confirm, so here sigdigs / rse are picked by a symbolic index from tables around the thresholds
+EXPRS_F = [
+    ('sigdigs >= 0.1', 'sigdigs >= 0.1'), ('not sigdigs >= 0.1', ('not', 'sigdigs >= 0.1')),
+    ('rse < 0.4', 'rse < 0.4'), ('not rse < 0.4', ('not', 'rse < 0.4')),
+    ('minimization_successful or (rounding_errors and sigdigs >= 0.1)',
+     ('or', 'minimization_successful', ('and', 'rounding_errors', 'sigdigs >= 0.1'))),
+    ('minimization_successful and rse < 0.4', ('and', 'minimization_successful', 'rse < 0.4')),
+    ('minimization_successful or (rounding_errors and sigdigs>= 0.1)',
+     ('or', 'minimization_successful', ('and', 'rounding_errors', 'sigdigs >= 0.1'))),
+]
+SD_TABLE = [0, 0.05, 0.1, 0.15, 3]
+RSE_TABLE = [0.0, 0.39, 0.4, 0.41, 2]
 
 
 def _tree_val(t, R_):
@@ -526,6 +536,37 @@ def strictness(x: int, nan: bool, ms: bool, tc: int, sd: int, rse0: int, rse1: i
     if nan:
         return got is False or got == False     # noqa: E712
     return bool(got) == bool(_tree_val(tree, R_))
+
+
+def strictness_float(x: int, nan: bool, ms: bool, tc: int, sdi: int, r0i: int, r1i: int, fzg: bool) -> bool:
+    """
+    As `strictness` for the expressions with non-integer thresholds (the documented examples): sigdigs and the two
+    RSEs range over tables around the thresholds (symbolic index), the flags are symbolic.
+    pre: 0 <= x < len(EXPRS_F) and 0 <= tc <= 2 and 0 <= sdi < 5 and 0 <= r0i < 5 and 0 <= r1i < 5
+    post: _ == True
+    """
+    R.np = FakeNp
+    R.is_strictness_fulfilled = _real['isf']
+    x = [j for j in range(len(EXPRS_F)) if j == x][0]
+    tc = [j for j in range(3) if j == tc][0]
+    sd = SD_TABLE[[j for j in range(5) if j == sdi][0]]
+    r0 = RSE_TABLE[[j for j in range(5) if j == r0i][0]]
+    r1 = RSE_TABLE[[j for j in range(5) if j == r1i][0]]
+    text, tree = EXPRS_F[x]
+    R_ = dict(nan=nan, ms=ms, tc=tc, sd=sd, rse0=r0, rse1=r1, fzg=fzg)
+    got = R.is_strictness_fulfilled(None, SRes(R_), text)
+    if nan:
+        return got is False or got == False     # noqa: E712
+    return bool(got) == bool(_tree_val(tree, R_))
+
+
+def strictness_float__twin(x: int, nan: bool, ms: bool, tc: int, sdi: int, r0i: int, r1i: int, fzg: bool) -> bool:
+    """
+    pre: 0 <= x < len(EXPRS_F) and 0 <= tc <= 2 and 0 <= sdi < 5 and 0 <= r0i < 5 and 0 <= r1i < 5
+    pre: not nan and x == 4 and not ms
+    post: _ == True
+    """
+    return not strictness_float(x, nan, ms, tc, sdi, r0i, r1i, fzg)
 
 
 def strictness__twin(x: int, nan: bool, ms: bool, tc: int, sd: int, rse0: int, rse1: int, fzg: bool) -> bool:
